@@ -70,19 +70,29 @@ CAST_REPS = {
     'Symbol': ['(s 5)', '(s 11)', '(s 0)', '(s 18446744073709551615)'],
     'SymbolList': ['(syl (s 5) (s 6))', '(syl (s 5) (s 11) (s 7))', '(syl (s 5) (i 1))', '(syl (i 2) (s 5) ' + fb(1.5) + ')'],
     'Pair': ['(p (s 5) (i 1))', '(p (i 1) (i 2))', '(p (s 11) (l (i 1) (i 2)))', '(p (i 1) (b 7))', '(p (p (i 1) (i 2)) (c 97))',
-             '(p (cl 97) (p T (p F U)))'],
+             '(p (cl 97) (p T (p F U)))', '(p (i 0) (sl (cl 97 98 99) (r (i 1) (i 2))))', '(p (sl (l (i 1) (i 2)) (r (i 0) (i 5))) (syl (s 5) (s 6)))'],
     'Range': ['(r (i 1) (i 4))', '(r (i 0) (i 1))', '(r (i 5) (i 5))', '(r (i 5) (i 2))', '(r (i 3) (i 2))', '(r (i -2) (i 2))',
               '(r (i 2147483645) (i 2147483647))', '(r (i -2147483648) (i 2147483647))', '(r (i -2147483648) (i -2147483646))',
               '(r (i 0) (i 999))', '(r ' + fb(0.5) + ' ' + fb(2.5) + ')', '(r (i 0) ' + fb(2.5) + ')', '(r ' + fb(0.5) + ' (i 3))',
-              '(r ' + fb(2.5) + ' ' + fb(0.5) + ')', '(r U U)', '(r (i 1) U)', '(r (cl 97) (i 1))'],
+              '(r ' + fb(2.5) + ' ' + fb(0.5) + ')', '(r U U)', '(r (i 1) U)', '(r (cl 97) (i 1))',
+              # float ranges (1.5 .. 3.2 is stored with end 4.2), increments absorbed by the float (former hang, /repo 5455df2),
+              # ends at i32::MAX
+              '(r ' + fb(1.5) + ' ' + fb(4.2) + ')', '(r ' + fb(1.5) + ' ' + fb(3.2) + ')', '(r ' + fb(-1.25) + ' ' + fb(1.0) + ')',
+              '(r ' + fb(9007199254740992.0) + ' ' + fb(9007199254740992.0) + ')', '(r ' + fb(9007199254740992.0) + ' ' + fb(9007199254740994.0) + ')',
+              '(r ' + fb(1e300) + ' ' + fb(1e300) + ')', '(r (i 2147483647) (i 2147483647))', '(r (i 2147483646) (i 2147483647))',
+              '(r ' + fb(2147483645.5) + ' (i 2147483647))', '(r (i 2147483645) ' + fb(2147483647.0) + ')', '(r (i 2147483640) (i 2147483647))'],
     'Concatenation': ['(cat (i 1) (i 2))', '(cat (l (i 1) (p (s 5) (i 2))) (i 3))', '(cat (cat (i 1) (l)) (cat (l (i 2) (i 3)) (cl 97)))',
-                      '(cat (l) (l))', '(cat (b 7) (i 1))', '(cat (cl 97 98) (cl 99))'],
+                      '(cat (l) (l))', '(cat (b 7) (i 1))', '(cat (cl 97 98) (cl 99))',
+                      '(cat (sl (cat (i 1) (i 2)) (r (i 0) (i 1))) (i 9))', '(cat (p (i 1) (i 2)) (l (l (i 3))))'],
     'Slice': (['(sl %s %s)' % (v, r) for v in _SLICE_SEQS for r in _SLICE_RANGES] +
               ['(sl (i 5) (r (i 0) (i 1)))', '(sl (sl (l (i 1) (i 2) (i 3)) (r (i 0) (i 2))) (r (i 0) (i 1)))',
                '(sl (l (i 1)) (i 0))', '(sl (l (i 1)) U)', '(sl U (r (i 0) (i 0)))', '(sl (bl 1 2 3) (r (i 0) (i 2147483647)))']),
     'Partial': ['(pa (e 1) (i 1))', '(pa (i 2) (i 1))'],
     'List': ['(l)', '(l (i 1))', '(l (i 1) (p (s 5) (i 2)) (cl 97))', '(l (p (s 5) (i 1)) (p (s 11) (i 2)))',
-             '(l (l (i 1) (i 2)) (l) (l (l (i 3))))', '(l (i 1) (b 7) (i 2))', '(l T F U)', '(l (bl 1 2) (syl (s 5) (s 6)) (r (i 1) (i 2)))'],
+             '(l (l (i 1) (i 2)) (l) (l (l (i 3))))', '(l (i 1) (b 7) (i 2))', '(l T F U)', '(l (bl 1 2) (syl (s 5) (s 6)) (r (i 1) (i 2)))',
+             '(l (sl (l (i 1) (i 2) (i 3)) (r (i 0) (i 1))) (i 9))', '(l (cat (i 1) (i 2)) (pa (i 1) (i 2)) (e 1) (x 2) (ty Number) T)',
+             '(l (sl (i 5) (r (i 0) (i 1))) (sl (cl 97 98) (r (i 0) (i 1))) (sl (cat (i 1) (l (i 2) (i 3))) (r (i 1) (i 2))))',
+             '(l (l (l (l (l (i 1) (i 2)) (i 3)) (i 4)) (i 5)) (p (p (p (i 1) (i 2)) (i 3)) (i 4)))'],
     'Expression': ['(e 1)', '(e 0)'],
     'External': ['(x 3)'],
 }
@@ -97,10 +107,10 @@ CAST_TARGET_VALUE = {'Unit': 'U', 'True': 'T', 'False': 'F', 'Number': '(i 5)', 
 # Reproducers of candidate defects that hang or exhaust memory; NOT part of the default matrix (the no-hang oracles of
 # C07/C08 would trip on them): tools/gen/castgen.py --hazards runs them on their own.
 CAST_HAZARDS = [
-    # float range whose end absorbs the increment: SimpleGarnishData's `while count <= end` never ends
-    ('simple', '(r ' + fb(1e300) + ' ' + fb(1e300) + ')', '(ty List)'),
-    ('simple', '(r ' + fb(9007199254740992.0) + ' ' + fb(9007199254740992.0) + ')', '(ty List)'),
-    ('basic', '(r ' + fb(1e300) + ' ' + fb(1e300) + ')', '(ty List)'),
+    # (the float ranges of length 1 whose end absorbs the increment are repaired by /repo 5455df2 and now part of the matrix)
+    # absorbed increment AND a huge announced length: `added < len && count <= end` holds for 2^64 rounds on Simple
+    ('simple', '(r ' + fb(1e300) + ' ' + fb(2e300) + ')', '(ty List)'),
+    ('basic', '(r ' + fb(1e300) + ' ' + fb(2e300) + ')', '(ty List)'),
     # list length announced from the range: allocation of 2 x len cells (Basic), len items (Simple)
     ('basic', '(r (i 0) (i 2147483646))', '(ty List)'),
     ('simple', '(r (i 0) (i 2147483646))', '(ty List)'),
